@@ -1036,4 +1036,131 @@ example : (assignZip "render_engine" true .typeError [1, 2] [{ stored := 8, engi
 
 end Examples
 
+/-! ### Round 6 — the constructor `Cls(observers=…)` is a second entry point that agrees with `add_observer` -/
+
+section Constructor
+
+/-- the constructor's loop over observers of the group's type is exactly the history `add u₁; …; add uₙ` -/
+theorem addLoop_accepts (tbl : List Descriptor) (ci : ClassInfo) (us : List Nat) (w : World)
+    (hok : ∀ u ∈ us, typeOk w.heap ci.accepted u = true) :
+    addLoop ci w us = (run tbl ci w (us.map .add), none) ∧ (run tbl ci w (us.map .add)).members = w.members ++ us := by
+  induction us generalizing w with
+  | nil => simp [addLoop, run]
+  | cons u us ih =>
+    have hu := hok u (by simp)
+    obtain ⟨e, hm, -, -, -⟩ := add_accepts ci w u hu
+    have hok' : ∀ x ∈ us, typeOk (addObserver ci w u).1.heap ci.accepted x = true := by
+      intro x hx; rw [typeOk_addObserver]; exact hok x (by simp [hx])
+    obtain ⟨h1, h2⟩ := ih (addObserver ci w u).1 hok'
+    constructor
+    · simp only [addLoop, List.map, run, step]
+      rcases hr : addObserver ci w u with ⟨w', e'⟩
+      rw [hr] at e h1
+      simp only at e
+      subst e
+      simpa using h1
+    · simp only [List.map, run, step]
+      rw [h2, hm]; simp
+
+/-- **two entry points agree**: `Cls(observers=us)` with observers of the group's type is accepted, and the group it
+builds *is* the one obtained from an empty group by `add_observer(u)` for every `u` in order — same members (`us`, in
+order), same heap; every member's parent is the new group and the invariant of clauses 6–7 holds -/
+theorem construct_accepts (tbl : List Descriptor) (ci : ClassInfo) (g : Nat) (h : Heap) (us : List Nat)
+    (hok : ∀ u ∈ us, typeOk h ci.accepted u = true) :
+    construct ci g h us = (run tbl ci ⟨g, h, []⟩ (us.map .add), none) ∧
+    (construct ci g h us).1.members = us ∧ (construct ci g h us).1.gid = g ∧ Inv ci (construct ci g h us).1 := by
+  obtain ⟨h1, h2⟩ := addLoop_accepts tbl ci us ⟨g, h, []⟩ hok
+  obtain ⟨h3, h4⟩ := inv_run tbl ci (us.map .add) ⟨g, h, []⟩ (inv_empty ci g h)
+  unfold construct
+  rw [h1]
+  exact ⟨rfl, by simpa using h2, h4, h3⟩
+
+/-- **a refused constructor keeps the earlier adoptions** (the constructive content of "the constructor is a loop of
+`add_observer`"): with the first object of a wrong type at position `pre.length`, the call raises `add_observer`'s
+exception, and the half-built group is the result of the accepted adds — `pre` are its members, each with the
+discarded group as parent; nothing behind the wrong object is touched -/
+theorem construct_refused_partial (tbl : List Descriptor) (ci : ClassInfo) (g : Nat) (h : Heap) (pre post : List Nat) (x : Nat)
+    (hok : ∀ u ∈ pre, typeOk h ci.accepted u = true) (hx : typeOk h ci.accepted x = false) :
+    construct ci g h (pre ++ x :: post) = (run tbl ci ⟨g, h, []⟩ (pre.map .add), some ci.addErr) ∧
+    (construct ci g h (pre ++ x :: post)).1.members = pre ∧
+    (∀ u ∈ pre, (((construct ci g h (pre ++ x :: post)).1.heap u).parent = some g)) := by
+  have key : ∀ (pre : List Nat) (w : World), (∀ u ∈ pre, typeOk w.heap ci.accepted u = true) →
+      typeOk w.heap ci.accepted x = false →
+      addLoop ci w (pre ++ x :: post) = (run tbl ci w (pre.map .add), some ci.addErr) := by
+    intro pre
+    induction pre with
+    | nil =>
+      intro w _ hx
+      simp [addLoop, run, add_rejects ci w x hx]
+    | cons u pre ih =>
+      intro w hok hx
+      have hu := hok u (by simp)
+      obtain ⟨e, -, -, -, -⟩ := add_accepts ci w u hu
+      have hok' : ∀ y ∈ pre, typeOk (addObserver ci w u).1.heap ci.accepted y = true := by
+        intro y hy; rw [typeOk_addObserver]; exact hok y (by simp [hy])
+      have hx' : typeOk (addObserver ci w u).1.heap ci.accepted x = false := by
+        rw [typeOk_addObserver]; exact hx
+      have h1 := ih (addObserver ci w u).1 hok' hx'
+      simp only [List.cons_append, addLoop, List.map, run, step]
+      rcases hr : addObserver ci w u with ⟨w', e'⟩
+      rw [hr] at e h1
+      simp only at e
+      subst e
+      simpa using h1
+  have hk := key pre ⟨g, h, []⟩ hok hx
+  obtain ⟨-, h2⟩ := addLoop_accepts tbl ci pre ⟨g, h, []⟩ hok
+  obtain ⟨h3, h4⟩ := inv_run tbl ci (pre.map .add) ⟨g, h, []⟩ (inv_empty ci g h)
+  unfold construct
+  rw [hk]
+  refine ⟨rfl, by simpa using h2, ?_⟩
+  intro u hu
+  have := (h3 u (by rw [h2]; simpa using hu)).1
+  rw [h4] at this
+  exact this
+
+/-- **for every argument list** (right or wrong types, duplicates, members of other groups): whatever the constructor
+leaves behind — accepted or raised — satisfies clauses 6–7 (every member has the new group as parent and is of the group's
+type), and its members are a prefix of the argument -/
+theorem construct_inv (ci : ClassInfo) (g : Nat) (h : Heap) (us : List Nat) :
+    Inv ci (construct ci g h us).1 ∧ (construct ci g h us).1.gid = g ∧ (construct ci g h us).1.members <+: us := by
+  have key : ∀ (us : List Nat) (w : World), Inv ci w →
+      Inv ci (addLoop ci w us).1 ∧ (addLoop ci w us).1.gid = w.gid ∧
+      ∃ pre, pre <+: us ∧ (addLoop ci w us).1.members = w.members ++ pre := by
+    intro us
+    induction us with
+    | nil => intro w hi; exact ⟨hi, rfl, [], by simp, by simp [addLoop]⟩
+    | cons u us ih =>
+      intro w hi
+      obtain ⟨h1, h2⟩ := inv_step [] ci w (.add u) hi
+      simp only [step] at h1 h2
+      by_cases ht : typeOk w.heap ci.accepted u = true
+      · obtain ⟨e, hm, -, -, -⟩ := add_accepts ci w u ht
+        obtain ⟨i1, i2, pre, i3, i4⟩ := ih (addObserver ci w u).1 h1
+        simp only [addLoop]
+        rcases hr : addObserver ci w u with ⟨w', e'⟩
+        rw [hr] at e i1 i2 i4 h2 hm
+        simp only at e i1 i2 i4 h2 hm
+        subst e
+        refine ⟨i1, by rw [i2, h2], u :: pre, by simpa using i3, ?_⟩
+        rw [i4, hm]; simp
+      · have ht' : typeOk w.heap ci.accepted u = false := by simpa using ht
+        rw [show addLoop ci w (u :: us) = (w, some ci.addErr) by simp only [addLoop, add_rejects ci w u ht']]
+        exact ⟨hi, rfl, [], by simp, by simp⟩
+  obtain ⟨h1, h2, pre, h3, h4⟩ := key us ⟨g, h, []⟩ (inv_empty ci g h)
+  unfold construct
+  exact ⟨h1, h2, by rw [h4]; simpa using h3⟩
+
+/-- the hypothesis of `construct_accepts` is necessary and `construct_refused_partial` is not vacuous: a wrong object
+in the middle (uid 77 is a Sphere) -/
+example : (construct exClass 500 exWorld2.heap [1, 77, 2]).2 = some .valueError ∧
+    (construct exClass 500 exWorld2.heap [1, 77, 2]).1.members = [1] ∧
+    ((construct exClass 500 exWorld2.heap [1, 77, 2]).1.heap 1).parent = some 500 ∧
+    ((construct exClass 500 exWorld2.heap [1, 77, 2]).1.heap 2).parent ≠ some 500 := by decide
+
+example : (∀ u ∈ [1, 2, 3], typeOk exWorld.heap exClass.accepted u = true) ∧
+    (construct exClass 500 exWorld.heap [1, 2, 3]).2 = none ∧
+    (construct exClass 500 exWorld.heap [1, 2, 3]).1.members = [1, 2, 3] := by decide
+
+end Constructor
+
 end Cherab.Props.C15
